@@ -388,7 +388,16 @@ ADDENDA2 = {
 }
 
 
-ADDENDA3 = {}   # (reserved)
+ADDENDA3 = {
+    "C06": " ON THE REGENERATED LOOPS (Properties/C06_generated.lean, vmap read as List.map / zipWith): rolling out the mapped stepper is the "
+           "transpose of mapping the rollout, entry by entry and as whole arrays, with and without include_init; shapes; entry (t, b) = "
+           "stepper^[t(+1)] batch[b]; member b depends only on batch[b] (and on its own aux / its own column of a time-major aux sequence); "
+           "repeat of the mapped stepper = map of repeat; constant-aux and aux-sequence variants with the aux axes exchanged.",
+    "C19": " ON THE ASSEMBLED REGENERATED STEPS (Properties/C19_assembled.lean): the zero state is fixed by every order whenever N(0) = 0, for "
+           "every symbol and contour, hence by thirteen regenerated stepper classes for all constructor arguments; polynomial family: zero "
+           "is fixed when c0 = 0 (converse only partial); at lambda = 0 exactly exp_term = half_exp_term = 1, no closed form is evaluated at "
+           "zero, and all fourteen stored coefficients are within 1.7e-12*|dt| of dt*phi_k(0).",
+}
 
 
 def main():
